@@ -714,6 +714,11 @@ def run(ctx, report):
                       'only is guarded by a test of that list (or by an IndexError handler), or follows an unconditional fill', floor=1)
     empty_index_rule(ctx, R12, ctx.mod('ia32_arch'), ['x86_mn._dis', 'x86_mn.special_opcodes', 'x86_mnemo_metaclass.dis'])
 
+    R13 = report.rule('C10.D13', 'the loop of asm_candidates that matches parsed operands against the operand kinds of a candidate row, evaluated for every row with an immediate x 13 operand '
+                      'lists (none, too few, too many, wrong kinds): the candidate is accepted or refused, no Python exception escapes', floor=100)
+    from ..immdecode import asm_operand_loop_total_rule
+    asm_operand_loop_total_rule(ctx, R13, x86model(ctx))
+
     R4 = report.rule('C10.D4', 'truncated input is reported as absent; reads are bounds-checked; loops make progress', floor=12)
     if not tries or 'IOError' not in caught:
         R4.violation('_dis:try', '_dis:no-IOError-handler', 'the decoder has no try whose IOError handler returns None', where(arch, dis))
